@@ -59,6 +59,7 @@ def draw_smc_scenario(
     flow_kinds=("latent", "native"),
     train_shift=(0.5, 2.0),
     hard=False,
+    cut_prob=0.25,
 ):
     rng = rng_from(seed)
     kind = pick(rng, list(kinds))
@@ -110,6 +111,12 @@ def draw_smc_scenario(
         seeds={"rng": int(rng.integers(1 << 30)), "entropy": int(rng.integers(1 << 30)),
                "train": int(rng.integers(1 << 30)), "torch": int(rng.integers(1 << 30))},
     )
+    if rng.uniform() < cut_prob:
+        # a likelihood with a hard cut INSIDE the prior support (the documented recipe returns -inf for invalid points):
+        # part of the initial population then carries zero incremental weight
+        j = int(rng.integers(t.dims))
+        if t.factor[j] != "vm":
+            scn["target"]["like_cut"] = [j, float(t.lower[j] + (t.upper[j] - t.lower[j]) * rng.uniform(0.3, 0.5))]
     if hard:
         # a proposal well off the posterior and a demanding ESS target: more tempering iterations, hence more
         # checkpoints and more distinct durable states per run
